@@ -96,7 +96,10 @@ class Engine(Interp):
                             stack.extend(p for p in body.pred[x] if p in rpo_idx)
                         for x in loop:
                             c[x] = c.get(x, 0) + 1
+                        lb = body.__dict__.setdefault("_loop_bodies", {})
+                        lb[h] = lb.get(h, set()) | loop
             body._loop_depth = c
+            body.__dict__.setdefault("_loop_bodies", {})
         return c
 
     def cyclic_blocks(self, body):
@@ -325,6 +328,20 @@ class Engine(Interp):
             if ctx.observers:
                 ctx.emit("ret", frame=fr, bb=bi, callee=(self.prog.inst[to] if to is not None else None), value=ret, st=s2, args=args)
             res.append((tv["target"], s2))
+        if len(res) > 1:
+            # several outcomes of one call (e.g. Some/None of an iterator step): run the (single
+            # predecessor) continuation block separately for each, so that the switch on the result
+            # keeps the correlation with the rest of the state
+            tgt = tv["target"]
+            npred = len(fr.body.pred[tgt])
+            if npred == 1 and tgt != bi:
+                out2 = []
+                for _, s2 in res:
+                    try:
+                        out2.extend(self.exec_block(s2, fr, tgt))
+                    except Diverge:
+                        pass
+                return out2
         return res
 
     def call(self, st, fr, bi, callee, args, dest_ty):
@@ -539,6 +556,25 @@ class Engine(Interp):
                         extra.update((x - 1, x, x + 1))
         if extra:
             thresholds = sorted(set(thresholds) | extra)
+        import fv.absint as _A
+        saved_important = _A.IMPORTANT
+        _A.IMPORTANT = sorted(extra)
+        try:
+            return self._run_join(fr, seeds, part0, thresholds)
+        finally:
+            _A.IMPORTANT = saved_important
+
+    def _run_join(self, fr, seeds, part0, thresholds):
+        ctx = self.ctx
+        body = fr.body
+        rpo_idx = {b: i for i, b in enumerate(body.rpo)}
+        nb = len(body.blocks)
+        npred = [len([p for p in body.pred[b] if p in rpo_idx]) for b in range(nb)]
+        loop_heads = set()
+        for b in body.rpo:
+            for s in body.succ[b]:
+                if s in rpo_idx and rpo_idx[s] <= rpo_idx[b]:
+                    loop_heads.add(s)
         depth = self.loop_depth(body)
         in_states = {}
         visits = {}
@@ -572,6 +608,12 @@ class Engine(Interp):
                 changed = not same_state(old, new)
                 if changed:
                     in_states[sk] = new
+                    if succ in loop_heads:
+                        # a new iteration of this loop: inner loops start their widening delay afresh
+                        inner = body._loop_bodies.get(succ, ())
+                        for k2 in list(visits):
+                            if k2[0] != succ and k2[0] in inner and k2[0] in loop_heads:
+                                visits[k2] = 0
                 if ctx.log and ctx.log(fr):
                     self.debug_state(fr, succ, v, widen, new, s2)
             if changed and sk not in queued:
